@@ -16,7 +16,8 @@ EXPLANATION = (
     "the current error on that path; success returns the inner Ok payload; (STATE) mark_connected precedes the Ok "
     "return and mark_disconnected lies on every reconnectable-error path before any exit. Not decided: delay "
     "values (C14)."
-    ' (CONFIG build-alter) the built max_attempts is the configured one, not a filtered/mapped version of it.')
+    ' (CONFIG build-alter) the built max_attempts is the configured one, not a filtered/mapped version of it.'
+    ' (STATE connected-is-final) after the state is marked connected the request is answered without entering another phase or touching the wrapped service.')
 RULE = "one obligation per wrapped-call site, per set-sleeping site and gate, per writer of the counter, per error construction, per state mark"
 TRUSTED = ["tokio::time::Sleep", "pin-project projection", "rustc MIR construction"]
 ASSUMPTIONS = ["should_reconnect / max_attempts / retry_on_reconnect / delay_for_attempt are the public configuration names"]
